@@ -68,6 +68,9 @@ def work(job):
                 else:
                     data = r[1]
                     d = impl.decode(spec, tname, data)
+                    if d[0] != 'ok' and d[1] == 'Timeout':
+                        part.count(codec + '.machinery-timeout')        # time is C08's business, not a round-trip failure
+                        continue
                     if d[0] != 'ok':
                         problem = 'decode of own encoding failed: %s %s' % (d[1], d[2])
                     elif not py_equal(t, d[1], v):
@@ -75,6 +78,9 @@ def work(job):
                         detail['decoded'] = repr(d[1])[:400]
                     else:
                         r2 = impl.encode(spec, tname, d[1])
+                        if r2[0] != 'ok' and r2[1] == 'Timeout':
+                            part.count(codec + '.machinery-timeout')
+                            continue
                         if r2[0] != 'ok':
                             problem = 'decoded value is rejected by the encoder: %s' % (r2[1],)
                         elif codec in CANONICAL and r2[1] != data:
